@@ -144,6 +144,16 @@ class StoreProfile(Profile):
                 out.append({k: v for k, v in o.items() if k != "fault"})
         return out
 
+    def replace_seq(self, rng, st, cp):
+        """read B - another program copies A over B - read B: whatever the first read left behind in
+        the process must not show in the second."""
+        seq = [{"op": "read", "path": cp["to"]}] if rng.random() < 0.7 else []
+        seq += [cp]
+        if rng.random() < 0.8:
+            seq.append({"op": "read", "path": cp["to"]})
+        st.pending = seq[1:]
+        return seq[0]
+
     # ---- shared generators ---------------------------------------------------------
     PUNCT_VDIMS = {2: [["m-x", "m-y"], ["x.1", "x.2"]], 3: [["m-x", "m-y", "m-z"], ["a.b", "a+c", "d"], ["x'", "y'", "z'"]], 4: [["k-1", "k-2", "k-3", "k-4"]]}
 
@@ -203,6 +213,8 @@ class OvfProfile(StoreProfile):
     def gen_op(self, rng, st):
         cfg = st.cfg
         out = st.next_slot
+        if getattr(st, "pending", None):
+            return st.pending.pop(0)
         # paths share stems: p0.omf / p0.ovf / p0.ohf are three different files
         names = [f"p{i // 3}.{ext}" for i, ext in zip(range(cfg["npaths"]), ["omf", "ovf", "ohf", "omf"])]
         if not [s for s, (_, f) in st.f.items() if f.mesh.region.ndim == 3 and len(set(f.mesh.region.units)) == 1] or (len(st.f) < cfg["nfields"] and rng.random() < 0.3):
@@ -286,6 +298,9 @@ class OvfProfile(StoreProfile):
             return {"op": "restart", "fault": "restart"}
         if c == "copy":
             st.ncopy += 1
+            others = [p for p in paths if p != rel]
+            if others and rng.random() < 0.4:
+                return self.replace_seq(rng, st, {"op": "copy", "path": rel, "to": rng.choice(others), "with_sidecar": rng.random() < 0.7, "over": True})
             return {"op": "copy", "path": rel, "to": f"copy{st.ncopy}.omf", "with_sidecar": rng.random() < 0.5}
         if c == "delete":
             return {"op": "delete", "path": rel}
@@ -340,7 +355,7 @@ class Hdf5Profile(StoreProfile):
     prop = "C10"
     name = "hdf5"
     fmt = "hdf5"
-    required_probes = ("path_reuse", "foreign_hdf5-legacy", "recovery_read", "intcorner_floatsubs", "stale_sidecar_next_to_hdf5", "twin_field", "large_field")
+    required_probes = ("path_reuse", "foreign_hdf5-legacy", "recovery_read", "intcorner_floatsubs", "stale_sidecar_next_to_hdf5", "twin_field", "large_field", "legacy_unsorted_corners")
     rule = (
         "one case = one seeded store history (3-20 ops) of HDF5 writes and reads of 1-4-d fields (arbitrary dims/units/tolerance/"
         "bc/subregions, int- or float-typed corners crossed with int- or float-typed subregion corners, labels and unit present or "
@@ -368,6 +383,8 @@ class Hdf5Profile(StoreProfile):
     def gen_op(self, rng, st):
         cfg = st.cfg
         out = st.next_slot
+        if getattr(st, "pending", None):
+            return st.pending.pop(0)
         names = [f"p{i}.{ext}" for i, ext in zip(range(cfg["npaths"]), ["h5", "hdf5", "h5"])]
         paths = sorted(st.paths)
         if not st.f or (len(st.f) < cfg["nfields"] and rng.random() < 0.35):
@@ -426,7 +443,7 @@ class Hdf5Profile(StoreProfile):
             pmin = [geo.origin(rng) for _ in range(3)]
             pmax = [a + k * geo.cell(rng) for a, k in zip(pmin, n)]
             st.ncopy += 1
-            return {"op": "foreign_write", "path": f"legacy{st.ncopy}.h5", "dialect": {"kind": "hdf5-legacy"}, "mesh": {"p1": pmin, "p2": pmax, "n": n}, "nvdim": rng.choice([1, 3]), "value": {"kind": "idx"}}
+            return {"op": "foreign_write", "path": f"legacy{st.ncopy}.h5", "dialect": {"kind": "hdf5-legacy"}, "mesh": {"p1": pmin, "p2": pmax, "n": n}, "nvdim": rng.choice([1, 3]), "value": {"kind": "idx"}, "swap": [rng.random() < 0.35 for _ in range(3)]}
         c = rng.choice(cfg["faults"] + ["copy", "delete", "drop"])
         rel = rng.choice(paths)
         if c == "restart":
@@ -435,6 +452,9 @@ class Hdf5Profile(StoreProfile):
             return {"op": "truncate", "path": rel, "where": {"at": "file", "frac": rng.random()}, "fault": "truncate_observed"}
         if c == "copy":
             st.ncopy += 1
+            others = [p for p in paths if p != rel]
+            if others and rng.random() < 0.5:
+                return self.replace_seq(rng, st, {"op": "copy", "path": rel, "to": rng.choice(others), "over": True})
             return {"op": "copy", "path": rel, "to": f"copy{st.ncopy}.h5"}
         if c == "delete":
             return {"op": "delete", "path": rel}
@@ -471,6 +491,8 @@ class VtkProfile(StoreProfile):
     def gen_op(self, rng, st):
         cfg = st.cfg
         out = st.next_slot
+        if getattr(st, "pending", None):
+            return st.pending.pop(0)
         names = [f"p{i}.vtk" for i in range(cfg["npaths"])]
         paths = sorted(st.paths)
         if not [s for s, (_, f) in st.f.items() if f.mesh.region.ndim == 3] or (len(st.f) < cfg["nfields"] and rng.random() < 0.35):
@@ -522,6 +544,9 @@ class VtkProfile(StoreProfile):
             return {"op": "truncate", "path": rel, "where": {"at": "file", "frac": rng.random()}, "fault": "truncate_observed"}
         if c == "copy":
             st.ncopy += 1
+            others = [p for p in paths if p != rel]
+            if others and rng.random() < 0.4:
+                return self.replace_seq(rng, st, {"op": "copy", "path": rel, "to": rng.choice(others), "with_sidecar": rng.random() < 0.7, "over": True})
             return {"op": "copy", "path": rel, "to": f"copy{st.ncopy}.vtk", "with_sidecar": rng.random() < 0.5}
         if c == "delete":
             return {"op": "delete", "path": rel}
